@@ -180,6 +180,7 @@ def _build(case):
         target, other = f"p.m.{c['name']}", f"p.k.{c['name']}"
     else:
         raise ValueError(sit)
+    sp.decoy(cfg)   # a parser constructed later with other settings must not change this one's flags
     return parser, target, other
 
 
